@@ -672,13 +672,15 @@ func freeRound(backend string, s kvs.Storage, seed int64, run *report.Run) []frF
 	return out
 }
 
-func buildScripts(run *report.Run) []script {
+// forEachScript enumerates the scripts of this tier and seed lazily (the thorough tier has tens of millions:
+// materialising them once cost 13 GB and the OOM killer); fn gets a running index.
+func forEachScript(run *report.Run, fn func(i int, sc script)) {
 	depth := run.Pick(4, 6)
-	var scripts []script
-	enumerate(depth, func(s script) { scripts = append(scripts, s) })
+	i := 0
+	enumerate(depth, func(s script) { fn(i, s); i++ })
 	// random deeper scripts
 	rng := rand.New(rand.NewSource(run.Seed()))
-	for i := 0; i < run.Pick(300000, 1500000); i++ {
+	for j := 0; j < run.Pick(300000, 1500000); j++ {
 		n := depth + 1 + rng.Intn(6)
 		var evs []ev
 		for len(evs) < n {
@@ -687,9 +689,9 @@ func buildScripts(run *report.Run) []script {
 				evs = append(evs, e)
 			}
 		}
-		scripts = append(scripts, script{Init: 2 + rng.Intn(2), Events: evs})
+		fn(i, script{Init: 2 + rng.Intn(2), Events: evs})
+		i++
 	}
-	return scripts
 }
 
 // TestChild runs one shard of the scripted part inside a single bubble (child process of TestCheck).
@@ -700,15 +702,20 @@ func TestChild(t *testing.T) {
 	}
 	run := report.New("C07", "exploration")
 	res := shard.NewResult()
-	scripts := buildScripts(run)
 	local := map[string]struct{}{}
 	synctest.Test(t, func(t *testing.T) {
-		for i := idx; i < len(scripts); i += total {
-			res.Evals++
-			if v := runScript(scripts[i], func(c string) { local[c] = struct{}{} }); v != nil {
-				res.Violation(v.sig, v.what, scripts[i])
+		forEachScript(run, func(i int, sc script) {
+			if i%total != idx {
+				return
 			}
-		}
+			res.Evals++
+			if res.Evals <= 2 && idx == 0 {
+				res.Samples = append(res.Samples, sc)
+			}
+			if v := runScript(sc, func(c string) { local[c] = struct{}{} }); v != nil {
+				res.Violation(v.sig, v.what, sc)
+			}
+		})
 	})
 	for c := range local {
 		res.Classes = append(res.Classes, c)
@@ -790,14 +797,10 @@ func TestCheck(t *testing.T) {
 	}
 	depth := run.Pick(4, 6)
 	run.Note("script_depth", depth)
-	scripts := buildScripts(run)
-	run.Note("scripts", len(scripts))
 	// one bubble per process: the library's global version generator (a mutex) must not be shared between bubbles
 	for c := range shard.Run(run, "TestChild", "scripted", runtime.NumCPU(), 40*time.Minute) {
 		classes[c] = struct{}{}
 	}
-	run.Sample(scripts[len(scripts)/3])
-	run.Sample(scripts[len(scripts)-1])
 
 	t.Run("free", func(t *testing.T) {
 		for _, backend := range []string{"inmem", "redis"} {
